@@ -323,8 +323,15 @@ def int_repr(run, self):
     c = _as_long(self.t)
     if c is not None:
         return VStr(str, repr(c))
-    # int -> decimal text: IntToStr for non-negative, "-" + IntToStr(-x) otherwise
-    return VStr(str, z3.If(self.t >= 0, z3.IntToStr(self.t), z3.Concat(z3.StringVal("-"), z3.IntToStr(-self.t))))
+    # int -> decimal text.  Trusted facts about CPython's rendering, added as assumptions on a fresh string:
+    # it is an optional '-' followed by decimal digits, and parsing it back gives the same integer (int(str(n)) == n).
+    s_ = run.fresh("int_text", z3.StringSort())
+    digits = z3.Plus(z3.Range("0", "9"))
+    run.assume(z3.InRe(s_, z3.Concat(z3.Option(z3.Re("-")), digits)))
+    run.assume(z3.PrefixOf(z3.StringVal("-"), s_) == (self.t < 0))
+    run.ghost.setdefault("rendered_ints", {})[s_.get_id()] = self.t
+    run.note("int rendering: str(n) is -?[0-9]+ and int(str(n)) == n (trusted CPython facts)")
+    return VStr(str, s_)
 
 
 @method(int, "__float__")
@@ -346,7 +353,11 @@ def int_new(run, clsv, x=None, base=None, **kw):
     if base is not None:
         if not (isinstance(x, (VStr, VBytes)) and is_concrete(x) and is_concrete(base)):
             if isinstance(x, VStr):
-                raise Unsupported("int(symbolic str, base)")
+                run.note("int(<symbolic text>, base) is abstracted to 'some integer or ValueError'")
+                run.overapprox = True
+                if run.branch(run.fresh("parses", z3.BoolSort())):
+                    return VInt(cls, run.fresh_int("parsed"))
+                run.throw(ValueError, "invalid literal for int()")
             run.throw(TypeError, "int() can't convert non-string with explicit base")
         try:
             return VInt(cls, int(_se().conc(x), _se().conc(base)))
@@ -365,8 +376,12 @@ def int_new(run, clsv, x=None, base=None, **kw):
         h = run.ghost.get("int_of_str")
         if h is not None:
             return VInt(cls, h(run, x))
+        known = run.ghost.get("rendered_ints", {}).get(x.t.get_id())
+        if known is not None:
+            return VInt(cls, known)            # int(str(n)) == n
         # over-approximation: parsing an unknown text yields some integer or raises ValueError
         run.note("int(<symbolic text>) is abstracted to 'some integer or ValueError'")
+        run.overapprox = True
         if run.branch(run.fresh("parses", z3.BoolSort())):
             return VInt(cls, run.fresh_int("parsed"))
         run.throw(ValueError, "invalid literal for int()")
@@ -563,7 +578,12 @@ def float_repr(run, self):
     t = z3.simplify(self.t)
     if z3.is_fp_value(t):
         return VStr(str, repr(_se().fp_to_py(t)))
-    return VStr(str, run.fresh("hv_floatrepr", z3.StringSort()))
+    s_ = run.fresh("float_text", z3.StringSort())
+    run.ghost.setdefault("rendered_floats", {})[s_.get_id()] = self.t
+    run.assume(z3.Not(z3.Or(z3.PrefixOf(z3.StringVal("0x"), s_), z3.PrefixOf(z3.StringVal("0X"), s_),
+                            z3.PrefixOf(z3.StringVal("-0x"), s_), z3.PrefixOf(z3.StringVal("-0X"), s_))))
+    run.note("float rendering: float(repr(x)) == x, NaN included as NaN (trusted CPython fact)")
+    return VStr(str, s_)
 
 
 @method(float, "__new__")
@@ -584,7 +604,11 @@ def float_new(run, clsv, x=None):
         h = run.ghost.get("float_of_str")
         if h is not None:
             return VFloat(cls, h(run, x))
+        known = run.ghost.get("rendered_floats", {}).get(x.t.get_id())
+        if known is not None:
+            return VFloat(cls, known)          # float(repr(x)) == x
         run.note("float(<symbolic text>) is abstracted to 'some double or ValueError'")
+        run.overapprox = True
         if run.branch(run.fresh("parses", z3.BoolSort())):
             return VFloat(cls, run.fresh("parsedf", FP))
         run.throw(ValueError, "could not convert string to float")
@@ -733,6 +757,11 @@ def str_endswith(run, self, suffix, *a):
 def _str_fold(name):
     def m(run, self, *args, **kw):
         se = _se()
+        if name == "encode" and not is_concrete(self) and (not args or (is_concrete(args[0]) and se.conc(args[0]).lower().replace("-", "") == "utf8")):
+            b = run.fresh("utf8", BYTES)
+            run.ghost.setdefault("utf8_of", {})[b.get_id()] = self.t
+            run.note("UTF-8: bytes.decode('utf-8') inverts str.encode('utf-8') (trusted)")
+            return VBytes(bytes, b)
         if is_concrete(self) and all(is_concrete(a) for a in args) and all(is_concrete(a) for a in kw.values()):
             try:
                 r = getattr(str, name)(se.conc(VStr(str, self.t)), *[se.conc(a) for a in args],
@@ -959,6 +988,15 @@ def bytes_contains(run, self, item):
 @method(bytes, "decode")
 def bytes_decode(run, self, *a, **kw):
     se = _se()
+    known = run.ghost.get("utf8_of", {}).get(self.t.get_id())
+    if known is not None and (not a or se.conc(a[0]).lower().replace("-", "") in ("utf8", "utf")):
+        return VStr(str, known)
+    if not is_concrete(self):
+        # arbitrary bytes: valid UTF-8 decodes to some text, anything else raises UnicodeDecodeError
+        run.overapprox = True
+        if run.branch(run.fresh("valid_utf8", z3.BoolSort())):
+            return VStr(str, run.fresh("decoded", z3.StringSort()))
+        raise se.PyRaise(VObj(UnicodeDecodeError, {"args": VTuple([VStr(str, "utf-8")])}))
     if is_concrete(self):
         try:
             return VStr(str, se.conc(VBytes(bytes, self.t)).decode(*[se.conc(i) for i in a]))
